@@ -2,6 +2,7 @@
 import Driver.Ops.C04
 import Driver.Ops.C07
 import Driver.Ops.C17
+import Driver.Ops.C20
 namespace ZVD
 
 def allOps : OpTable :=
@@ -9,6 +10,7 @@ def allOps : OpTable :=
   ++ opsC04
   ++ opsC07
   ++ opsC17
+  ++ opsC20
 
 def dispatch (op : String) (a : Args) : Except String String :=
   match allOps.find? (·.1 == op) with
